@@ -260,6 +260,8 @@ def gen_mirror(runner, tier, seed):
         frames, flows = [], []
         for k in range(n):
             cm = bytes([r.randrange(256) & 0xfe] + [r.randrange(256) for _ in range(5)])
+            if k < 4:                   # the configured MAC itself, broadcast, zero, a group address as the asker
+                cm = (mac(SMAC), b"\xff" * 6, b"\0" * 6, bytes.fromhex("01005e010203"))[k]
             c4, s4, c6, s6 = rand_ip4(r), rand_ip4(r), rand_ip6(r), rand_ip6(r)
             sport = r.choice([0, 1, 65534, 65535, r.randrange(65536)])
             dport = r.choice([0, 1, 65534, 65535, r.randrange(65536)])
@@ -495,6 +497,10 @@ def gen_arp_nd_echo(runner, tier, seed):
             fr.append(eth(m, CMAC, 0x86DD, ipv6(C6, solicited_node(S6), 58, nd_ns(C6, solicited_node(S6), S6, b"\x01\x01" + mac(CMAC)), hlim=255)))
             fr.append(eth(m, CMAC, 0x0800, ipv4(C4, S4, 1, icmp_echo(1, 2, b"m"))))
             fr.append(eth(m, CMAC, 0x0806, arp(1, CMAC, C4, "00:00:00:00:00:00", S4)))
+        # whoever asks is answered: requests whose Ethernet source is the configured MAC, broadcast, zero, a group address
+        for cmx in (SMAC, "ff:ff:ff:ff:ff:ff", "00:00:00:00:00:00", "01:00:5e:01:02:03"):
+            for m in (mac(SMAC), b"\xff" * 6):
+                fr += [f for n_, f in base_requests(m, C4, S4, C6, S6, cmac=cmx) if n_ in ("arp", "echo4", "echo6", "ns", "ns-unicast")]
         # requests followed by Ethernet padding (frames shorter than 60 bytes are padded on the wire), with IPv4 options
         for n in (0, 1, 5, 17, 18):
             d = bytes(range(65, 65 + n))
@@ -685,6 +691,10 @@ def gen_log(runner, tier, seed):
                 for (src4, src6) in ((C4, C6), (D4, D6)):
                     for (dst4, dst6) in ((S4, S6), (O4, O6)):
                         fr += [f for _, f in base_requests(m, src4, dst4, src6, dst6)]
+            # unusual Ethernet sources: the configured MAC itself, broadcast, zero, a group address
+            for cmx in (SMAC, "ff:ff:ff:ff:ff:ff", "00:00:00:00:00:00", "01:00:5e:01:02:03"):
+                for m in (mac(SMAC), b"\xff" * 6):
+                    fr += [f for _, f in base_requests(m, C4, S4, C6, S6, cmac=cmx)]
             p4, p6 = peer4(), peer6()
             # drops at every layer
             fr += [b"", b"\0" * 13, eth(SMAC, cm, 0x0806, b"\0" * 27), eth(SMAC, cm, 0x0800, b"\x45" + b"\0" * 18),
@@ -1049,6 +1059,16 @@ def _flood_round(runner, r, n, rd):
 def gen_segmentation(runner, tier, seed):
     r = rng_for(seed, "C11")
     reqs = HTTP_REQS[:4] + rpc_reqs(r)[:3] if tier == "quick" else HTTP_REQS + rpc_reqs(r)
+    # streams whose answer the statements leave open are cut-independent all the same (relation `segs` of the
+    # specification): blanks around the colon, stray CRs, long version numbers, header lines without a colon,
+    # a body after the empty line, two requests in one stream, an RPC call followed by a second record
+    odd = [http_request("GET", b"/", headers=[b"Host : x", b"A :b"]), http_request("GET", b"/", headers=[b"Host\t:\tx"], eol=b"\n"),
+           b"GET / HTTP/1.1\r\r\nHost: a\r\r\n\r\r\n", b"GET / HTTP/11.10\r\nA: b\r\n\r\n", b"GET / HTTP/1.1\r\nno colon here\r\n\r\n",
+           b"POST /p HTTP/1.1\r\nContent-Length: 5\r\n\r\nhello", http_request("GET", b"/1") + http_request("GET", b"/2"),
+           b"GET / HTTP/1.1\nX-Empty:\n\n", b"GET / HTTP/1.1\r\n: novalue\r\n\r\n", b"GET /a b HTTP/1.1\r\n\r\n",
+           rpc_call(xid=0x05000000 | r.randrange(1 << 24), vers=2, proc=3, args=struct.pack(">IIII", 100003, 3, 6, 0), tcp=True)
+           + rpc_call(xid=0x06000000 | r.randrange(1 << 24), vers=2, proc=0, tcp=True)]
+    reqs = reqs + (odd[:2] + odd[7:8] + r.sample(odd, 2) if tier == "quick" else odd)
     port = 4000
     for qi, req in enumerate(reqs):
         s = runner.session(cfg_plain(key=KEYS[qi % 3]), "segmentation request %d (%d bytes)" % (qi, len(req)))
@@ -1070,7 +1090,10 @@ def gen_segmentation(runner, tier, seed):
             flows = []
             for pl in chunk:
                 port += 1
-                flows.append((Flow(r.choice(peers), 1024 + (port % 60000), r.choice([80, 111, 2049, 31337]), r.randrange(1 << 32)), pl))
+                # mostly one contacted endpoint per stream (answers are then compared byte for byte), sometimes another
+                pe = peers[qi % 2] if r.random() < 0.7 else r.choice(peers)
+                dp = [80, 111, 2049, 31337][qi % 4] if r.random() < 0.7 else r.choice([80, 111, 2049, 31337])
+                flows.append((Flow(pe, 1024 + (port % 60000), dp, r.randrange(1 << 32)), pl))
             live = open_flows(s, [f for f, _ in flows])
             frames = []
             # interleave the flows round-robin so that segments of different flows alternate
@@ -1080,7 +1103,7 @@ def gen_segmentation(runner, tier, seed):
                     frames.append(item[0].data(item[1].pop(0), **tcp_opts(len(frames))))
                     if not item[1]:
                         pending.remove(item)
-            s.send(frames)
+            s.send(frames, seg=qi + 1)          # every flow of this session carries the same byte stream
 
 
 # ------------------------------------------------------------------ application protocols (C13 - C18)
